@@ -548,3 +548,4 @@ def run(ctx):
 
     r = ctx.rule("R7", "simplify's result takes nothing from the recycled storage it is written into: op accounting, loop tail and the parent's variable map", 6)
     ctx.guarded(r, S_.r_tail)
+    ctx.include('C14', 'a variable array shorter than the row would leave the recycled tail of the row in use', only=('R3d',))
